@@ -64,6 +64,7 @@ type c07Directory struct {
 	passwords map[string]string // bind DN -> password
 	status    []int
 	binds     int
+	answered  int // binds that got a verdict (success / invalid credentials)
 	urls      []string
 }
 
@@ -83,6 +84,9 @@ func (d *c07Directory) handler(idx int) func(w ldapserver.ResponseWriter, m *lda
 			w.Write(res)
 			return
 		}
+		d.mu.Lock()
+		d.answered++
+		d.mu.Unlock()
 		pw := string(r.AuthenticationSimple())
 		if known && pw != "" && expected == pw {
 			w.Write(ldapserver.NewBindResponse(ldapserver.LDAPResultSuccess))
@@ -208,6 +212,7 @@ type c07Hist struct {
 	rejectedAt  map[string]int64 // "u|pw" -> last answered rejection
 	confSeq     map[string]int   // the same two, as positions in the history
 	rejSeq      map[string]int
+	void        bool // the directory did not behave as scripted (a bind timed out under load)
 	rejOutage   map[string]bool  // ... and whether the primary was not fully up then
 }
 
@@ -361,7 +366,21 @@ func (h *c07Hist) login(u, pw int) {
 	answered := h.anyUp()
 	dirOK := u != 3 && h.dirPw[u] == pw && pw != 0
 	req := verifNewRequest("POST", proto.LoginPath, url.Values{"username": {raw}, "password": {c07PwString(pw)}})
+	h.d.mu.Lock()
+	a0 := h.d.answered
+	h.d.mu.Unlock()
+	tBefore := time.Now().Unix()
 	rr, _ := e.env.serve(req)
+	tAfter := time.Now().Unix()
+	h.d.mu.Lock()
+	reallyAnswered := h.d.answered > a0
+	h.d.mu.Unlock()
+	if reallyAnswered != answered && pw != 0 {
+		// the environment's answer is an input of the case: a replica that is up but did not
+		// get to answer within the bind timeout (machine under load) voids the history
+		h.void = true
+		e.res.bump("void:directory-did-not-answer-as-scripted")
+	}
 	e.touched()
 	e.settle()
 	verdict := rr.Code == 200
@@ -404,9 +423,9 @@ func (h *c07Hist) login(u, pw int) {
 			h.snaps = append(h.snaps, fmt.Sprintf("(%d%%nat, %s, %s)", len(h.ops)-1, h.coqDB(before), h.coqDB(beforeC)))
 			h.now = codeNow
 		}
-		if d := newRow.exp - time.Now().Unix() - 96*3600; d < -3 || d > 3 || c.Expiration != newRow.exp {
+		if issued := newRow.exp - 96*3600; issued < tBefore-1 || issued > tAfter+1 || c.Expiration != newRow.exp {
 			e.res.hit(verifHit{Key: "C07:refresh:lifetime", Oracle: "a refreshed hash expires 96 hours after the confirmed login (signed claim = column)",
-				What: fmt.Sprintf("record written for %s: column expires in %d s, signed claim %d vs column %d", raw, newRow.exp-time.Now().Unix(), c.Expiration, newRow.exp), Case: kase, Observed: obs})
+				What: fmt.Sprintf("record written for %s during [%d, %d]: column expires %d s after the request, signed claim %d vs column %d", raw, tBefore, tAfter, newRow.exp-tAfter, c.Expiration, newRow.exp), Case: kase, Observed: obs})
 		}
 	}
 	h.ops = append(h.ops, fmt.Sprintf("(Login %d%%N %d%%N)", u, pw))
@@ -416,6 +435,9 @@ func (h *c07Hist) login(u, pw int) {
 	e.res.bump(fmt.Sprintf("login:%s:answered=%v:%v", c15ModeNames[e.mode], answered, verdict))
 
 	// ---- the property's own oracles
+	if h.void {
+		return
+	}
 	if answered && verdict != dirOK {
 		k := "accepted-against-directory"
 		if dirOK {
@@ -633,6 +655,7 @@ func TestVerif_C07(t *testing.T) {
 		nHist, maxOps = 1500, 14
 	}
 	var cases, idx []string
+	voided := 0
 	run := func(i int, body func(h *c07Hist)) {
 		e.wipe()
 		dirSrv.mu.Lock()
@@ -646,6 +669,10 @@ func TestVerif_C07(t *testing.T) {
 			confSeq: map[string]int{}, rejSeq: map[string]int{}}
 		body(h)
 		e.setMode(c15Up)
+		if h.void {
+			voided++
+			return
+		}
 		cases = append(cases, h.emit(len(dirSrv.status)))
 		idx = append(idx, strings.Join(h.human, " "))
 		if i < 3 {
@@ -810,6 +837,10 @@ func TestVerif_C07(t *testing.T) {
 		})
 	}
 	res.Extra["histories"] = len(cases)
+	res.Extra["voided_histories"] = voided
+	if voided*10 > nHist {
+		t.Fatalf("%d of %d histories void: the in-process directory does not answer binds in time", voided, nHist)
+	}
 
 	// ---------------- the other backends: htpassword file and external command
 	var bcases []string
